@@ -266,6 +266,7 @@ def check(case):
         model = {n: {} for n in LIGHTS}         # key -> (priority, colour)
         involved = {n: [RGBColor("off")] for n in LIGHTS}
         last_fade_end = {n: 0.0 for n in LIGHTS}
+        exempt_until = {n: 0.0 for n in LIGHTS}     # mid-fade tracking resumes once the fades nested with a removal are over
         structural = {n: -10.0 for n in LIGHTS}
 
         def tops(n):
@@ -299,9 +300,11 @@ def check(case):
             if n != "l_rgb":
                 return      # white channels are not linear in the colour (min of the components / white_only switch):
                             # the hardware interpolates the mapped endpoints, not the mapped interpolation
-            if rig.now < structural[n] + 2.1:
+            if rig.now < max(structural[n] + 2.1, exempt_until[n]):
                 return      # after a removal the hardware fade is one linear segment while the logical colour is a nested
-                            # interpolation (a fading-out entry over a fading entry): they only agree again at rest
+                            # interpolation (a fading-out entry over a fading entry): they only agree again at rest, i.e.
+                            # once every fade that began inside the 2.1 s after the removal has ended as well (the
+                            # statement binds the hardware once all fades have finished)
             light = m.lights[n]
             exp = expected_channels(light, light.get_color())
             for cname, drivers in light.hw_drivers.items():
@@ -359,6 +362,8 @@ def check(case):
                         involved[n].append(col)
                         if fade:
                             last_fade_end[n] = max(last_fade_end[n], now + fade / 1000.0)
+                            if now < max(structural[n] + 2.1, exempt_until[n]):
+                                exempt_until[n] = max(exempt_until[n], now + fade / 1000.0 + 0.1)
                     if len(set(p for p, _ in model[n].values())) >= 3:
                         classes.add(">=3-priorities")
                 elif k == "remove":
@@ -369,6 +374,7 @@ def check(case):
                         classes.add("fade-out-removal")
                         last_fade_end[n] = max(last_fade_end[n], now + fade / 1000.0)
                     structural[n] = now
+                    exempt_until[n] = max(exempt_until[n], last_fade_end[n] + 0.1)
                     m.lights[n].remove_from_stack_by_key(key, fade_ms=fade)
                     gone = model[n].pop(key, None)
                     if gone is not None and fade:
@@ -399,6 +405,7 @@ def check(case):
                 elif k == "clear":
                     n = o[1]
                     structural[n] = now
+                    exempt_until[n] = max(exempt_until[n], last_fade_end[n] + 0.1)
                     m.lights[n].clear_stack()
                     model[n].clear()
                     involved[n].append(RGBColor("off"))
